@@ -430,17 +430,17 @@ func (s *Stream) rawFlushLocked() (err error) {
 
 func (s *Stream) checkRecvFlush() (err error) {
 	s.flush.Do(func() { err = s.RawFlush() })
-	if err != nil {
-		return err
+	if err == nil && s.opts.ManualFlush && !s.wr.Empty() {
+		err = s.RawFlush()
 	}
 
-	if s.opts.ManualFlush && !s.wr.Empty() {
-		if err := s.RawFlush(); err != nil {
-			return err
-		}
+	// a flush that was refused because the stream has been terminated must
+	// not pre-empt the receive: the receive itself reports why the stream
+	// was terminated (for example the error sent by the remote).
+	if err != nil && s.sigs.term.IsSet() {
+		return nil
 	}
-
-	return nil
+	return err
 }
 
 // RawRecv returns the raw bytes received for a message.
